@@ -36,9 +36,40 @@ def param_at_(b, i):
     return param_at(b, i)
 
 
+def candidate_shape(ret, stores, CUR, carries, fam, k):
+    """the candidate vector of one window: load(cur) -> members_k -> result j shifted in by k-1-j bytes from carry j -> AND of
+    all; carry j = result j. Returns None or what deviates."""
+    from acverif.sym import canon, cstr
+    load = 'packed::vector::Vector::load_unaligned' if fam == 'Slim' else 'packed::vector::FatVector::load_half_unaligned'
+    MEM = 'packed::teddy::generic::Mask::members%d(%s(%s), self.masks)' % (k, load, CUR)
+    res = [MEM if k == 1 else '%s.%d' % (MEM, j) for j in range(k)]
+    pref = '' if fam == 'Slim' else 'half_'
+    trait = 'Vector' if fam == 'Slim' else 'FatVector'
+    want = set()
+    for j in range(k - 1):
+        want.add('packed::vector::%s::%s%s(%s, %s)' % (trait, pref, SHIFT[k - 1 - j], res[j], carries[j]))
+    want.add(res[k - 1])
+    leaves = []
+
+    def flat(x):
+        x = canon(x)
+        if is_call(x, r'packed::vector::Vector::and$'):
+            flat(x[2][0])
+            flat(x[2][1])
+        else:
+            leaves.append(cstr(x))
+    flat(ret)
+    why = None
+    if set(leaves) != want or len(leaves) != k:
+        why = 'the candidate vector is the AND of %s, expected %s' % (sorted(leaves), sorted(want))
+    st = {cstr(p): cstr(v) for p, v in stores}
+    if st != {carries[j]: res[j] for j in range(k - 1)}:
+        why = why or 'the carry vectors are updated as %s (expected carry j = result j of this window)' % st
+    return why
+
+
 def candidate_rule(cx, c, fam, k, tag):
-    """Slim/Fat<V, k>::candidate on its path summary: load(cur) -> members_k -> result j shifted in by k-1-j bytes from carry j
-    -> AND of all; carry j = result j."""
+    """Slim/Fat<V, k>::candidate on its path summary"""
     from acverif.sym import summarize, canon, cstr
     from acverif.rl import param_at
     rows = [r for r in summarize(cx.facts, c) if r.end == 'return']
@@ -47,32 +78,7 @@ def candidate_rule(cx, c, fam, k, tag):
         why = '%d paths (expected straight-line code)' % len(rows)
     else:
         r = rows[0]
-        CUR = cstr(param_at(c, 2))
-        carries = [cstr(param_at(c, 3 + j)) for j in range(k - 1)]
-        load = 'packed::vector::Vector::load_unaligned' if fam == 'Slim' else 'packed::vector::FatVector::load_half_unaligned'
-        MEM = 'packed::teddy::generic::Mask::members%d(%s(%s), self.masks)' % (k, load, CUR)
-        res = [MEM if k == 1 else '%s.%d' % (MEM, j) for j in range(k)]
-        pref = '' if fam == 'Slim' else 'half_'
-        trait = 'Vector' if fam == 'Slim' else 'FatVector'
-        want = set()
-        for j in range(k - 1):
-            want.add('packed::vector::%s::%s%s(%s, %s)' % (trait, pref, SHIFT[k - 1 - j], res[j], carries[j]))
-        want.add(res[k - 1])
-        leaves = []
-
-        def flat(x):
-            x = canon(x)
-            if is_call(x, r'packed::vector::Vector::and$'):
-                flat(x[2][0])
-                flat(x[2][1])
-            else:
-                leaves.append(cstr(x))
-        flat(r.ret)
-        if set(leaves) != want or len(leaves) != k:
-            why = 'the candidate vector is the AND of %s, expected %s' % (sorted(leaves), sorted(want))
-        st = {cstr(p): cstr(v) for p, v in r.stores()}
-        if st != {carries[j]: res[j] for j in range(k - 1)}:
-            why = why or 'the carry vectors are updated as %s (expected carry j = result j of this window)' % st
+        why = candidate_shape(r.ret, r.stores(), cstr(param_at(c, 2)), [cstr(param_at(c, 3 + j)) for j in range(k - 1)], fam, k)
     cx.report('R06.1', c, 'candidate', why is None, '%s: load(cur) -> members%d -> result j shifted in by k-1-j bytes from carry j -> AND; carry j = result j' % (tag, k) if why is None else '%s::candidate deviates: %s' % (tag, why))
 
 
@@ -169,19 +175,24 @@ def find_rules(cx, b, one, fam, k, tag):
         cx.report('R06.2', b, 'tail-reset', why_r is None, '%s: every carry vector is reset to splat(0xFF) before the (non-adjacent) tail window' % tag if why_r is None else why_r)
     cx.report('R06.1', b, 'find_one-args', why_a is None, '%s: find_one(cur, end, carries)' % tag if why_a is None else why_a)
     # find_one: verify from cur - (k-1), guarded by !is_zero
-    rows = [r for r in summarize(cx.facts, one) if r.end == 'return']
+    # the candidate computation is looked at where it happens: `candidate` is unfolded into find_one, so a candidate function
+    # merged into find_one is the same code to the rule
+    from acverif.inline import vocab
+    uf = lambda p: (p not in vocab() and cx.facts.bodies[p].j.get('kind') != 'Closure') or re.search(r'::(Slim|Fat)::<V, \d>::candidate$', p) is not None
+    rows = [r for r in summarize(cx.facts, one, unfold=uf) if r.end == 'return']
     CUR, EN = cstr(param_at(one, 2)), cstr(param_at(one, 3))
+    whycand = None
     carry_params = [cstr(param_at(one, i)) for i in range(4, 4 + k - 1)]
     whyv = None
     nv = 0
     for r in rows:
         vs = [canon(c) for c in r.calls(r'%sTeddy::verify$' % GEN)]
-        cands = [canon(c) for c in r.calls(r'%s%s::candidate$' % (GEN, fam))]
-        if len(cands) != 1 or [cstr(x) for x in cands[0][2]] != [cstr(param_at(one, 1)), CUR] + carry_params:
-            whyv = whyv or '%s: find_one does not compute candidate(cur, carries in order) exactly once' % tag
+        zc = [(canon(c)[2][0], v_) for c, v_ in r.conds if is_call(canon(c), r'Vector::is_zero$')]
+        if len(zc) != 1:
+            whyv = whyv or '%s: find_one does not test exactly one candidate vector' % tag
             continue
-        C = cands[0]
-        z = r.cond(lambda c: is_call(canon(c), r'Vector::is_zero$') and cstr(canon(c)[2][0]) == cstr(C))
+        C, z = zc[0]
+        whycand = whycand or candidate_shape(C, r.stores(), CUR, carry_params, fam, k)
         if vs:
             nv += 1
             v = vs[0]
@@ -207,6 +218,7 @@ def find_rules(cx, b, one, fam, k, tag):
                 whyv = whyv or '%s: a non-zero candidate vector is not verified' % tag
     if nv == 0:
         whyv = whyv or '%s: no path verifies candidates' % tag
+    cx.report('R06.1', one, 'window-candidate', whycand is None, '%s: the vector tested and verified in find_one is the candidate of this window, computed from (cur, carries in order)' % tag if whycand is None else '%s::find_one: %s' % (tag, whycand))
     cx.report('R06.1', one, 'verify-base', whyv is None, '%s: candidates are verified from cur - %d (the window\'s first fingerprint byte), exactly when the candidate vector is non-zero' % (tag, k - 1) if whyv is None else whyv)
 
 
@@ -218,12 +230,13 @@ def r06_1(cx):
             n += 1
             find = cx.body('%s%s::<V, %d>::find' % (GEN, fam, k))
             one = cx.body('%s%s::<V, %d>::find_one' % (GEN, fam, k))
-            cand = cx.body('%s%s::<V, %d>::candidate' % (GEN, fam, k))
+            cand = cx.body('%s%s::<V, %d>::candidate' % (GEN, fam, k)) if cx.has('%s%s::<V, %d>::candidate' % (GEN, fam, k)) else None
             tag = '%s<%d>' % (fam, k)
             b = find
             prevs = ['prev%d' % j for j in range(k - 1)]
             find_rules(cx, find, one, fam, k, tag)
-            candidate_rule(cx, cand, fam, k, tag)
+            if cand is not None:
+                candidate_rule(cx, cand, fam, k, tag)
     cx.floor('R06.1', 'generic Teddy searchers', n, 8)
     for fam in ('Slim', 'Fat'):
         m = cx.body('%s%s::<V, BYTES>::minimum_len' % (GEN, fam))
